@@ -248,8 +248,54 @@ def reload_search(depth):
   return n, bad
 
 
+def wiring_check(_):
+  """The daemon's own wiring (service.createBaseService with USE_WHITELIST): the whitelist file must feed the
+  whitelist and the blacklist file the blacklist."""
+  settings = env.boot()
+  env.reset_state()
+  from carbon import service
+  from carbon.regexlist import WhiteList, BlackList
+  from twisted.internet.task import Clock
+  d = os.path.join(env.scratch(), 'wiring-%d' % os.getpid())
+  os.makedirs(d, exist_ok=True)
+  wp, bp = os.path.join(d, 'whitelist.conf'), os.path.join(d, 'blacklist.conf')
+  open(wp, 'w').write('^keep\\.\n')
+  open(bp, 'w').write('drop$\n')
+  bad = []
+  for lst in (WhiteList, BlackList):
+    if lst.read_task.running:
+      lst.read_task.stop()
+    lst.read_task.clock = Clock()
+    lst.rules_last_read = 0.0
+    lst.regex_list = []
+  settings['USE_WHITELIST'] = True
+  settings['whitelist'], settings['blacklist'] = wp, bp
+  try:
+    service.createBaseService(None, settings)
+    rig = wire.Rig('line')
+    from carbon import events
+    events.metricReceived.addHandler(rig._rec)
+    for name, want in (('keep.a', True), ('keep.drop', False), ('other.a', False), ('other.drop', False)):
+      del rig.delivered[:]
+      rig.feed(wire.line(name, 1000, 1.0))
+      got = bool(rig.delivered)
+      if got != want:
+        bad.append(('wiring', 'daemon wired with whitelist "^keep\\." and blacklist "drop$": %r %s' % (
+          name, 'was delivered' if got else 'was filtered'), {'wiring': name}))
+  finally:
+    settings['USE_WHITELIST'] = False
+    for lst in (WhiteList, BlackList):
+      if lst.read_task.running:
+        lst.read_task.stop()
+      lst.regex_list = []
+      lst.rules_last_read = 0.0
+  return bad
+
+
 def run(ctx):
   env.boot()
+  for key, what, rep in core.pmap(wiring_check, [0], fresh=True)[0]:
+    ctx.violation(key, what, rep)
   cs = core.seeded_order(cases(ctx), ctx.seed)
   nsh = 64
   res = core.pmap(shard, [cs[i::nsh] for i in range(nsh)], chunksize=1)
@@ -274,6 +320,10 @@ def run(ctx):
 def replay(path):
   body = json.load(open(path))
   rep = body['replay']
+  if 'wiring' in rep:
+    bad = wiring_check(0)
+    print('oracle:', bad[0][1] if bad else 'holds')
+    return 1 if bad else 0
   if 'history' in rep:
     n, bad = reload_search(len(rep['history']))
     print('oracle:', bad[0][1] if bad else 'holds')
